@@ -299,13 +299,22 @@ def run_error_rs(facts, rep):
     else:
         tr = get_tracer(facts, fb)
         found = False
-        for blk in fb.blocks:
+        # the normalising code: the conversion itself, or a private function of error.rs it hands the kind to
+        inter_ = Inter(facts)
+        helpers_ = []
+        for s_h in inter_.sites(fb):
+            hb_ = inter_.local_callee(s_h)
+            if hb_ is not None and hb_.vis != "pub" and not (hb_.impl and hb_.impl.get("trait")) and hb_.file == fb.file and hb_.id != fb.id:
+                helpers_.append(hb_)
+        for nb_ in [fb] + helpers_:
+          trn_ = get_tracer(facts, nb_)
+          for blk in nb_.blocks:
             if blk.cleanup:
                 continue
             for s in blk.stmts:
                 if s.kind == "assign" and s.rv.kind == "agg" and s.rv.agg.get("adt") == "error::VfsErrorKind" \
                         and s.rv.agg.get("variant") == "FileNotFound":
-                    gs = tr.guards_at(blk.idx)
+                    gs = trn_.guards_at(blk.idx)
                     g_io = any(g[0] == "variant" and g[3] == "IoError" for g in gs)
                     g_nf = any(("NotFound" in str(g)) for g in gs)
                     if g_io and g_nf:
@@ -327,6 +336,13 @@ def run_error_rs(facts, rep):
                     for f, v in t[3]:
                         if f == "kind":
                             ok_kind = any(a[0] == "agg" and a[2] == "FileNotFound" for a in alts(v))
+                            # ... or what the normalising helper returns
+                            for a in alts(v):
+                                if a[0] == "call":
+                                    hb2 = inter_.body_of_call(a)
+                                    if hb2 is not None and hb2 in helpers_ and any(
+                                            x[0] == "agg" and x[2] == "FileNotFound" for ct2, _, _ in inter_.ret_cases(hb2) for x in walk(norm(ct2))):
+                                        ok_kind = True
         rep.ob("R12.3a", fb.id, "normalised kind is stored", ok_kind,
                "kind field receives the normalised value" if ok_kind else "kind field does not receive the normalised kind", fb.span)
     # io errors enter only through error.rs (From<io::Error> -> From<VfsErrorKind>, where NotFound is normalised): nobody
